@@ -41,7 +41,11 @@ void L_TRY_READ_LOCK(L_TRY_READ_LOCK_a0 out, L_TRY_READ_LOCK_a1 l) {
   if (nondet_bool()) { *(void **)out = 0; *(uint64_t *)((uint8_t *)out + 8) = 0; return; }
   RLC(l)++; *(void **)out = l; *(uint64_t *)((uint8_t *)out + 8) = nondet_u64() & ~3ULL;
 }
-_Bool L_CHECK(L_CHECK_a0 l, L_CHECK_a1 ver) { (void)lk_idx(l); _Bool ok = nondet_bool(); if (!ok) RLC(l)--; return ok; }
+_Bool L_CHECK(L_CHECK_a0 l, L_CHECK_a1 ver) { (void)lk_idx(l);
+#ifdef VERIF_CFG_DEBUG
+  __CPROVER_assert(RLC(l) > 0, "UNODB_DETAIL_ASSERT(read_lock_count > 0) holds: check / unlock only inside an open read section");
+#endif
+  _Bool ok = nondet_bool(); if (!ok) RLC(l)--; return ok; }
 _Bool L_UPGRADE(L_UPGRADE_a0 l, L_UPGRADE_a1 ver) {
   int i = lk_idx(l); RLC(l)--;                                                   /* the read section is consumed either way */
   if (nondet_bool()) return 0;
@@ -73,6 +77,17 @@ uint64_t IN_K; unsigned IN_shape; _Bool IN_surv_leaf;
 static uint8_t *G_obj, *G_child, *G_surv, *G_db; static struct nview GV0; static uint8_t G_b; static struct stats S0, S1;
 static void set_slot(unsigned off, uint64_t w) { *(uint64_t *)(G_obj + off) = w; }
 static uint8_t *mk_lock_obj(void) { uint8_t *l = malloc(LAY_LOCK_SIZE); __CPROVER_assume(l != 0); return l; }
+#ifdef HAVE_P_INIT
+/* KIND >= 3 at min_size: the data-copy routine basic_inode_N::init(db, larger source node, child_to_delete) is OUTSIDE this proof (its 256-step
+ * loops do not close here).  What this proof needs from it: it performs no lock operation - a static fact checked on the IR on every run (job
+ * olc.copy-routines.no-locks) - and it cannot reach the section / guard objects (it is handed none).  Its effects on node memory, statistics and
+ * the retire ledger are NOT modelled: the C10 / C04-seq postconditions of the shrink are therefore not claimed for KIND >= 3. */
+static unsigned G_pinit;
+void P_INIT(P_INIT_a0 self, P_INIT_a1 db, P_INIT_a2 src, P_INIT_a3 c) {
+  __CPROVER_assert((uint8_t *)src == G_obj && OBS[1] && OBS[2] && !WHELD[1] && !WHELD[2], "C04-seq: the replaced node and the removed leaf are obsolete (and unlocked) before the routine that hands them to reclamation runs");
+  G_pinit++;
+}
+#endif
 static _Bool node_wf(const struct nview *v) {
 #if KIND <= 2
   return nv_wf_small(v);
@@ -153,11 +168,19 @@ void harness(void) {
   } else VERIF_CANARY("restart return reachable");
   if (engaged && val && matches) {
     __CPROVER_assert(child_in_parent == 0, "a completed removal reports 'no further descent'");
+#ifdef HAVE_P_INIT
+    __CPROVER_assert(OBS[2] && (at_min || retired(G_child)), "C04-seq: the removed leaf is made obsolete and (in-place removal) retired; at min_size its retirement is inside the copy routine, not modelled");
+#else
     __CPROVER_assert(retired(G_child) && OBS[2], "C04-seq: the removed leaf is made obsolete and retired");
+#endif
     if (!at_min) {
       __CPROVER_assert(G_nret == 1 && lg_allocs == 0 && lg_frees == 0 && *slot_in_parent == self_w && !OBS[1] && !OBS[0], "C04-seq: in-place removal retires exactly the leaf, the node stays");
       int d5[5] = {-1, 0, 0, 0, 0}; stats_check(&S0, &S1, -(int64_t)lsz, d5, Z4, Z4, 0); VERIF_CANARY("in-place removal reachable");
     } else {
+#ifdef HAVE_P_INIT
+      __CPROVER_assert(G_pinit == 1 && OBS[1] && !OBS[0] && lg_frees == 0 && lg_allocs == 1 && lg_alloc_sz[0] == n_size(KIND - 1) && *slot_in_parent == adt_tag(lg_alloc_p[0], KIND - 1), "at min_size the node is made obsolete and replaced in the parent slot by a new node of the next smaller class (contents: copy routine, not modelled)");
+      VERIF_CANARY("shrink reachable");
+#else
       __CPROVER_assert(G_nret == 2 && retired(G_obj) && OBS[1] && !OBS[0] && lg_frees == 0, "C04-seq / C10: at min_size the replaced node is made obsolete and retired too, nothing else, nothing freed directly");
       int d5[5] = {-1, 0, 0, 0, 0}, s4[4] = {0, 0, 0, 0}; d5[KIND] = -1; s4[KIND - 1] = 1;
 #if KIND == 1
@@ -166,6 +189,7 @@ void harness(void) {
 #else
       __CPROVER_assert(lg_allocs == 1 && lg_alloc_sz[0] == n_size(KIND - 1) && *slot_in_parent == adt_tag(lg_alloc_p[0], KIND - 1), "C10: at min_size the node is replaced by a new node of the next smaller class");
       d5[KIND - 1] = 1; stats_check(&S0, &S1, (int64_t)n_size(KIND - 1) - (int64_t)n_size(KIND) - (int64_t)lsz, d5, Z4, s4, 0); VERIF_CANARY("shrink reachable");
+#endif
 #endif
     }
   } else {
